@@ -349,7 +349,14 @@ def check_convert_value(val: str, char: Characteristic) -> Any:
     if char.format in NUMBER_TYPES:
         try:
             val = Decimal(val)
-        except ValueError:
+        except (ValueError, TypeError, ArithmeticError):
+            # Decimal raises InvalidOperation (an ArithmeticError) for unparsable
+            # strings and TypeError for unsupported types such as None
+            raise FormatError(f'"{val}" is no valid "{char.format}"!')
+
+        if not val.is_finite():
+            # NaN cannot be compared with min/max and neither NaN nor Infinity
+            # can be converted to an integer
             raise FormatError(f'"{val}" is no valid "{char.format}"!')
 
         if char.minValue is not None:
